@@ -1,5 +1,5 @@
 SPECIFICATION Spec
 CONSTANTS
   Alphabet = {1, 128, 255}
-INVARIANTS POSymmetric POCapped CmpIsIntegerOrder CmpAntisymmetric CmpZeroIffEqual POOrdersDistance DistZero DistSymmetric
+INVARIANTS POSymmetric POCapped CmpIsIntegerOrder CmpDecidedAtCommonPrefix CmpAntisymmetric CmpZeroIffEqual POOrdersDistance DistZero DistSymmetric
 CHECK_DEADLOCK FALSE
